@@ -58,7 +58,9 @@ example : runWfNode.toOption.map (fun p => (p.1.fd.frm, p.1.fd.dep, p.1.sharedNo
     = some ([(3, 1), (1, 0)], [(1, 0), (3, 1), (3, 0)], [(1, 1), (2, 3)], 3) := runWfNode_fd
 
 /-- **The graph of a workflow** satisfies `depends = TC(from)` (with or without passthrough: the stand-in
-sources are connected by recursive `add_from` calls, which C09 covers as well). -/
+sources are connected by recursive `add_from` calls, which C09 covers as well). The graph is built over
+`{ G with store := σf }`, `σf` the store after the final `fixExpr`, and over the expressions as `add_workflow` sees
+them after that pass (`sharedOf`, `setSrcTypes`); the `from`/`depends` part never looks at types or the store. -/
 theorem C09_workflow_graph (P : PLang) (G : GLang) (ops : List OperatorDecl) (c : GCfg)
     (hc : c.withDependencies = true) (passthrough : Bool) (w : Wf) (g : GState) (out : Nat)
     (m : List (Nat × Nat)) (h : addWorkflow P G ops c passthrough w = .ok (g, out, m)) :
@@ -93,7 +95,8 @@ example : run2.toOption.map (fun p => p.1.allTriples.filter (fun t => t.2.1 == .
     = some [(.b 2, .tf "from", .b 3), (.b 0, .tf "from", .b 3), (.b 0, .tf "from", .b 1), (.b 1, .tf "from", .b 2),
       (.b 1, .tf "depends", .b 2), (.b 0, .tf "depends", .b 1), (.b 0, .tf "depends", .b 2),
       (.b 0, .tf "depends", .b 3), (.b 2, .tf "depends", .b 3), (.b 1, .tf "depends", .b 3)] := by
-  decide +kernel
+  unfold run2 ex2
+  graph_eval
 
 /-- Without `with_dependencies` no `depends` edge is ever recorded (so the invariant fails as soon as there is
 a `from` edge: the switch really turns the closure off). -/
